@@ -78,17 +78,26 @@ def dbOp (backend : String) (st : DbSt) (op : String) : DbSt × String :=
     | none => (st, "bad-op")
   | ["G", k, l] => match hexArg k, optHex l with
     | some k, some l =>
-      if backend = "mem" then (st, resOut (Mem.get st.ctx l st.store k))
+      if backend = "mem" || backend = "pg" then (st, resOut (Mem.get st.ctx l st.store k))
       else (st, resOut (Fs.get enc st.ctx l st.store k))
     | _, _ => (st, "bad-op")
   | ["W", k, v, l] => match hexArg k, hexArg v, optHex l with
     | some k, some v, some l =>
-      let (store', r) := if backend = "mem" then Mem.put st.ctx l st.store k v else Fs.put enc st.ctx l st.store k v
+      let (store', r) := if backend = "mem" || backend = "pg" then Mem.put st.ctx l st.store k v else Fs.put enc st.ctx l st.store k v
       ({ st with store := store' }, match r with | .ok _ => "ok" | .err _ => "err" | .panic _ => "panic")
     | _, _, _ => (st, "bad-op")
   | ["D", k, l] => match hexArg k, optHex l with
     | some k, some l =>
       if backend = "mem" then (st, "unsupported") else
+      if backend = "pg" then
+        -- pgDb.Dump calls SetLanguage(nil) on the handle
+        let st' := { st with ctx := st.ctx.setLanguage none }
+        match Pg.dump st.ctx st.store k with
+        | .ok kvs => (st', "ok:" ++ ",".intercalate (kvs.map fun p => s!"{hexOut p.1}={hexOut p.2}"))
+        | .err "notfound" => (st', "notfound")
+        | .err _ => (st', "err")
+        | .panic _ => (st', "panic")
+      else
       match Fs.dump enc dec st.ctx l st.store k with
       | .ok kvs => (st, "ok:" ++ ",".intercalate (kvs.map fun p => s!"{hexOut p.1}={hexOut p.2}"))
       | .err "notfound" => (st, "notfound")
@@ -103,7 +112,7 @@ def dbStep (_ : Unit) (line : String) : Unit × List String :=
   match words line with
   | [backend, _dom, ops] =>
     -- the Postgres wrapper without faults is the memory map on the same storage keys (C13 models faults)
-    let backend := if backend = "pg" then "mem" else backend
+    let backend := backend
     let (_, outs) := (ops.splitOn ";").foldl (fun (acc : DbSt × List String) op =>
       let (st', r) := dbOp backend acc.1 op
       (st', r :: acc.2)) ({}, [])
